@@ -95,7 +95,7 @@ def run_history(case):
             saved = sys.stdout
             sys.stdout = io.StringIO()
             try:
-                html = rimu.render(c['src'], o)
+                html = rimu.render(c['src']) if c.get('noopts') else rimu.render(c['src'], o)
             finally:
                 sys.stdout = saved
             if not isinstance(html, str):
